@@ -42,6 +42,7 @@ package parser
 //@   replay verifReplayIdentifierFromString(id)
 //@   ensures quoted: len(id) >= 2 && sat(id, 0) == '"' ==> !result.ignoreCase && result.id == substr(id, 1, len(id) - 1)
 //@   ensures unquoted: len(id) == 0 || sat(id, 0) != '"' ==> result.ignoreCase && result.id == id
+//@   ensures lone-quote: len(id) == 1 && sat(id, 0) == '"' ==> result.ignoreCase && result.id == id
 //@   modifies nothing
 
 //@ func parser.Identifier.equal [C09]
@@ -61,3 +62,90 @@ func verifSpecSystemTable(name Identifier) bool {
 //@ func parser.isSystemTable [C09]
 //@   ensures result == verifSpecSystemTable(name)
 //@   modifies nothing
+
+// ---------------------------------------------------------------------------------------------
+// C09: which statements the proxy answers itself
+// ---------------------------------------------------------------------------------------------
+
+// verifSpecHandledSelect is the property's sentence: "a SELECT whose table is one of the virtualised
+// system tables in keyspace system - qualified as system, or unqualified while the connection's
+// current keyspace is system".
+func verifSpecHandledSelect(current Identifier, qualified bool, qualifier Identifier, table Identifier) bool {
+	if !verifSpecSystemTable(table) {
+		return false
+	}
+	if qualified {
+		return qualifier.equal("system")
+	}
+	return current.equal("system")
+}
+
+//@ loop parser.untilToken #1
+//@   invariant inv(l) && l.data == old(l.data) && l.m == old(l.m) && l.p >= old(l.p) && l.pe == old(l.pe)
+//@   decreases l.pe - l.p, ite(t == tkEOF, 0, 1)
+
+//@ func parser.untilToken [C09, C06]
+//@   requires l != nil && inv(l)
+//@   ensures inv(l) && l.data == old(l.data) && l.m == old(l.m) && l.p >= old(l.p) && l.pe == old(l.pe)
+//@   ensures result == to || result == tkEOF
+//@   modifies l.p, l.id
+
+// parseQualifiedIdentifier: "ks.table" or "table". dotted = the token after the first identifier is '.'.
+//@ func parser.parseQualifiedIdentifier [C09]
+//@   requires l != nil && inv(l)
+//@   ensures inv(l) && l.data == old(l.data) && l.m == old(l.m) && l.p >= old(l.p) && l.pe == old(l.pe)
+//@   ensures dotted: err == nil && ufInt("lex.tok", old(l.data), old(l.p)) == tkDot ==> keyspace == IdentifierFromString(old(l.id))
+//@   ensures plain: err == nil && ufInt("lex.tok", old(l.data), old(l.p)) != tkDot ==> keyspace.id == "" && !keyspace.ignoreCase && target == IdentifierFromString(old(l.id))
+//@   ensures err != nil ==> t == tkInvalid
+//@   modifies l.p, l.id
+
+//@ loop parser.parseSelector #1
+//@   invariant inv(l) && l.data == old(l.data) && l.pe == old(l.pe) && l.p >= old(l.p)
+//@   invariant args == nil || fresh(args)
+
+//@ func parser.parseSelector
+//@   requires l != nil && inv(l)
+//@   ensures inv(l) && l.data == old(l.data) && l.pe == old(l.pe)
+//@   ensures err == nil ==> l.p >= old(l.p)
+//@   modifies l.p, l.id, l.m
+
+//@ ghostvar $selReached bool
+//@ ghostvar $selDot bool
+//@ ghostvar $selErr bool
+//@ ghostvar $selQual Identifier
+//@ ghostvar $selTable Identifier
+
+//@ loop parser.isHandledSelectStmt #1
+//@   invariant inv(l) && l.data == old(l.data) && l.pe == old(l.pe) && selectStmt != nil && fresh(selectStmt)
+//@   invariant selectStmt.Selectors == nil || fresh(selectStmt.Selectors)
+
+// isHandledSelectStmt: the decision equals the property's sentence, evaluated on the qualifier and
+// table name that the statement names after FROM ($sel* record what parseQualifiedIdentifier returned).
+//@ func parser.isHandledSelectStmt [C09]
+//@   requires l != nil && inv(l) && !$selReached
+//@   replay-post verifReplaySelectDecision(keyspace.id, keyspace.ignoreCase, $selDot, $selQual.id, $selQual.ignoreCase, $selTable.id, $selTable.ignoreCase)
+//@   before parser.parseQualifiedIdentifier#1 set $selDot = (ufInt("lex.tok", l.data, l.p) == tkDot)
+//@   after parser.parseQualifiedIdentifier#1 set $selReached = true; $selQual = result0; $selTable = result1; $selErr = (result3 != nil)
+//@   ensures inv(l)
+//@   ensures decision: $selReached && !$selErr ==> handled == verifSpecHandledSelect(keyspace, $selDot, $selQual, $selTable)
+//@   known decision: $selDot && $selQual.id == "" && !$selQual.ignoreCase
+//@   ensures no-target: !$selReached || $selErr ==> !handled
+//@   ensures statement: handled && err == nil ==> typeis(stmt, *SelectStatement) && as(stmt, *SelectStatement).Keyspace == "system" && as(stmt, *SelectStatement).Table == $selTable.id
+//@   modifies l.p, l.id, l.m, $selReached, $selDot, $selErr, $selQual, $selTable
+
+//@ func parser.isHandledUseStmt [C09]
+//@   requires l != nil && inv(l)
+//@   ensures handled == (ufInt("lex.tok", old(l.data), old(l.p)) == tkIdentifier)
+//@   ensures handled ==> err == nil && typeis(stmt, *UseStatement) && as(stmt, *UseStatement).Keyspace == ufStr("lex.id", old(l.data), old(l.p))
+//@   modifies l.p, l.id
+
+// IsQueryHandled: only SELECT and USE can be handled; everything else is forwarded.
+//@ func parser.IsQueryHandled [C09]
+//@   requires !$selReached
+//@   ensures other: ufInt("lex.tok", query, 0) != tkSelect && ufInt("lex.tok", query, 0) != tkUse ==> !handled && err == nil
+//@   ensures use: ufInt("lex.tok", query, 0) == tkUse ==> handled == (ufInt("lex.tok", query, ufInt("lex.end", query, 0)) == tkIdentifier)
+//@   ensures select: ufInt("lex.tok", query, 0) == tkSelect && $selReached && !$selErr ==> handled == verifSpecHandledSelect(keyspace, $selDot, $selQual, $selTable)
+//@   known select: $selDot && $selQual.id == "" && !$selQual.ignoreCase
+//@   ensures select-no-target: ufInt("lex.tok", query, 0) == tkSelect && (!$selReached || $selErr) ==> !handled
+//@   ensures not-handled-select: ufInt("lex.tok", query, 0) == tkSelect && !handled ==> typeis(stmt, *SelectStatement)
+//@   modifies $selReached, $selDot, $selErr, $selQual, $selTable
